@@ -29,7 +29,7 @@ def main():
     seed = os.path.abspath(sys.argv[1])
     meta = json.load(open(os.path.join(seed, "meta.json")))
     checks = sys.argv[2:] or [meta["property"]]
-    tier = os.environ.get("MUT_TIER", "quick")
+    tier = os.environ.get("MUT_TIER") or meta.get("tier", "quick")      # a seed may need the thorough tier
     tmp = tempfile.mkdtemp(prefix="seed_")
     out = {"seed": seed, "property": meta["property"]}
     try:
